@@ -2,7 +2,7 @@ SPECIFICATION Spec
 CONSTANTS
   NI = 2
   Versions <- Versions2
-  KindNames = {"nested", "flat", "outer", "inner"}
+  KindNames = {"nested", "flat"}
   MaxBatches = 3
   MaxMerges = 1
   PairMerges = FALSE
